@@ -146,6 +146,8 @@ class SbxRun:
         if self.cfg.get('allow_print'):
             # print() is allowed to reach the real console as well: pedal then captures through PrintingStringIO
             self.sandbox.allow_function('print')
+        for name in self.cfg.get('block_modules') or ():
+            self.sandbox.block_module(name)           # an instructor forbidding a module the programs may or may not use
         if self.cfg.get('full_traceback'):
             self.sandbox.full_traceback = True        # pedal's own frames stay in the rendered traceback
         if 'max_temp' in self.cfg:
